@@ -30,9 +30,78 @@ pub fn valid_history(rng: &mut Rng, m: &Model, n_msgs: usize, max_units: usize, 
     (0..n_msgs).map(|_| gen::valid_msg(rng, m, &o)).collect()
 }
 
+/// A message of queries whose responses add up to exactly `target` bytes (if the
+/// interface has an identification query and a short numeric query), so that the
+/// N-byte response buffer of `process` is filled exactly, or misses by one.
+pub fn response_fill_units(rng: &mut Rng, m: &Model, target: usize) -> Option<Msg> {
+    use crate::scenario::Unit;
+    use simcore::spec::R;
+    let idn = m.spelled.iter().find(|s| m.decl(s.decl).ret == R::Idn)?;
+    let hids: Vec<&simcore::spec::Spelled> = m.spelled.iter().filter(|s| m.decl(s.decl).ret == R::Hid && m.decl(s.decl).params.is_empty() && (s.path.len() == 1)).collect();
+    if hids.is_empty() {
+        return None;
+    }
+    let unit_of = |sp: &simcore::spec::Spelled| Unit {
+        colon: !sp.path[0].starts_with('*'),
+        mnems: sp.path.iter().map(|x| x.to_string()).collect(),
+        query: true,
+        ..Default::default()
+    };
+    let idn_len = simcore::world::IDN.len() + 3; // quotes + newline
+    let mut units: Vec<Unit> = Vec::new();
+    let mut left = target as i64;
+    while left >= idn_len as i64 && rng.chance(3, 4) {
+        units.push(unit_of(idn));
+        left -= idn_len as i64;
+    }
+    let mut guard = 0;
+    while left > 0 && guard < 40 {
+        guard += 1;
+        let h = *rng.pick(&hids);
+        let l = m.decl(h.decl).hid.to_string().len() as i64 + 1;
+        if l > left {
+            // try to find one that fits exactly
+            if let Some(x) = hids.iter().find(|x| m.decl(x.decl).hid.to_string().len() as i64 + 1 == left) {
+                units.push(unit_of(x));
+            }
+            break;
+        }
+        units.push(unit_of(h));
+        left -= l;
+    }
+    if units.is_empty() {
+        return None;
+    }
+    for i in (1..units.len()).rev() {
+        let j = rng.below(i + 1);
+        units.swap(i, j);
+    }
+    Some(Msg { units, semi: false, lead: vec![] })
+}
+
+pub fn response_fill_msg(rng: &mut Rng, m: &Model, target: usize) -> Option<Vec<u8>> {
+    response_fill_units(rng, m, target).map(|m| m.render())
+}
+
 /// byte stream of one of the classes of DESIGN 4.2
 pub fn any_stream(rng: &mut Rng, m: &Model, n: usize, max: usize) -> (Vec<u8>, &'static str) {
-    match rng.below(11) {
+    match rng.below(12) {
+        11 => {
+            // responses that fill the N byte response buffer exactly, or miss by one
+            let target = (n as i64 + *rng.pick(&[0i64, 0, -1, 1])).max(1) as usize;
+            let mut s = Vec::new();
+            if rng.chance(1, 2) {
+                let h = valid_history(rng, m, 1, 2, Payloads::Plain, false);
+                s = render(&h).0;
+            }
+            match response_fill_msg(rng, m, target) {
+                Some(x) => s.extend_from_slice(&x),
+                None => s.extend_from_slice(&gen::arbitrary_stream(rng, m, max.min(40))),
+            }
+            let h = valid_history(rng, m, 1, 2, Payloads::Plain, false);
+            s.extend_from_slice(&render(&h).0);
+            (s, "response-fill")
+        }
         10 => {
             // more parameters than supported: a header followed by 8..14 arguments
             let mut s = Vec::new();
